@@ -447,4 +447,156 @@ def jobs(check, mirror, rb, known_pred):
         decide(c, crate, "ym_duration_components", setup, post, replay, rb, budget_s=300, min_paths=1, max_cex=2,
                prefer=lambda v: z3.And(v["months"] > -100000, v["months"] < 100000))
 
-    return [sub_job, cmp_job, weekday_job, offset_job, dt_components_job, ym_components_job]
+    return [sub_job, cmp_job, weekday_job, offset_job, dt_components_job, ym_components_job, zone_offset_job(check, mirror, rb, crate, U)]
+
+
+# ----------------------------------------------------------------------------- the offset of a named zone at a wall-clock time
+# get_zone_offset (feel/src/temporal/mod.rs) asks chrono-tz for the instant a wall-clock time denotes in the zone and derives the offset
+# from it. The zone rules are an uninterpreted function o(zone, UTC instant) -> seconds east; chrono's API is modelled by its contract
+# over that function (a local time maps to the instants t with t + o(t) = wall clock: one, two - the earlier is taken - or none).
+
+
+def zone_offset_job(check, mirror, rb, crate, U):
+    import z3
+    from mcheck import decide, model_value
+    from mir.sym import Adt, En, Opaque, Ref, Sc, StrV, mk_bool
+    from mir.models import deref
+    from mir.parser import MirUnsupported
+    check.bounds.append("M/zone_offset: get_zone_offset for any zone name (known or unknown to the database), years 1..9999, any valid date and time; the zone rules are an uninterpreted "
+                        "function of the UTC instant (offsets within +-16 h), a wall-clock time denotes one, two or no instant")
+    I = z3.IntSort()
+    o = z3.Function("zone_rule_offset", I, I, I)
+    S_2021 = (18628 * 86400, 18716 * 86400 + 3600, 18931 * 86400 + 3600)   # 2021-01-01T00:00Z, 2021-03-28T01:00Z, 2021-10-31T01:00Z
+
+    def setup(ex, st):
+        zid = ex.fresh_int(st, "u8", "zoneid")
+        y = ex.fresh_int(st, "i32", "year")
+        mo = ex.fresh_int(st, "u32", "month")
+        d = ex.fresh_int(st, "u32", "day")
+        h = ex.fresh_int(st, "u32", "hour")
+        mi = ex.fresh_int(st, "u32", "minute")
+        s_ = ex.fresh_int(st, "u32", "second")
+        n = ex.fresh_int(st, "u32", "nano")
+        known = z3.Bool(ex.fresh_name("zone_known"))
+        ex.assume(st, z3.And(U.cal_valid(y.e, mo.e, d.e), y.e >= 1, y.e <= 9999, h.e < 24, mi.e < 60, s_.e < 60, n.e < 10 ** 9))
+        W = days_from_civil(y.e, mo.e, d.e) * 86400 + h.e * 3600 + mi.e * 60 + s_.e     # the wall clock read as seconds since the epoch
+        kind = ex.fresh_int(st, "u8", "local_result")      # 0 single, 1 ambiguous, 2 none (chrono's LocalResult)
+        t1 = z3.Int(ex.fresh_name("instant1"))
+        t2 = z3.Int(ex.fresh_name("instant2"))
+        apps = []
+
+        def rule(t):
+            v = o(zid.e, t)
+            apps.append((t, v))
+            ex.assume(st, z3.And(v >= -57600, v <= 57600))
+            return v
+        ex.assume(st, z3.And(kind.e <= 2, z3.Implies(kind.e <= 1, t1 + rule(t1) == W), z3.Implies(kind.e == 1, z3.And(t2 + rule(t2) == W, t1 < t2))))
+        inputs = dict(zoneid=zid.e, year=y.e, month=mo.e, day=d.e, hour=h.e, minute=mi.e, second=s_.e, nano=n.e, zone_known=known, local_result=kind.e,
+                      _W=W, _t1=t1, _t2=t2, _apps=apps)
+
+        def fields(a):
+            return [f.e for f in (deref(ex, st, a) if isinstance(a, Ref) else a).fields] if isinstance(a, (Adt, Ref)) else None
+
+        def m_ymd(ex, st, callee, a, dest_ty):
+            zone = "utc" if "<Utc as" in callee else val(st, a[0])
+            yy, mm, dd = a[1].e, a[2].e, a[3].e
+            okc = z3.And(U.cal_valid(yy, mm, dd), yy >= -262143, yy <= 262142)
+            yield st, En("LocalResult", z3.If(okc, z3.IntVal(0), z3.IntVal(2)), {"Single": (Opaque("Date", days_from_civil(yy, mm, dd), zone),), "Ambiguous": (), "None": ()})
+
+        def m_hms(ex, st, callee, a, dest_ty):
+            lr = a[0]
+            hh, mm, ss, nn = [x.e for x in a[1:5]]
+            date = lr.alts["Single"][0]
+            okt = z3.And(lr.disc == 0, hh < 24, mm < 60, ss < 60, nn < 2000000000)
+            wall = date.e * 86400 + hh * 3600 + mm * 60 + ss
+            if date.info == "utc":
+                yield st, En("LocalResult", z3.If(okt, z3.IntVal(0), z3.IntVal(2)), {"Single": (Opaque("DateTime", wall * 10 ** 9 + nn, "utc"),), "Ambiguous": (), "None": ()})
+                return
+            # a local time of the zone: the instants t with t + o(t) = wall clock (the obligation's own W when the code asks about the wall clock it was given)
+            same = z3.simplify(wall == W)
+            for st2 in ex.branch(st, z3.Not(z3.And(okt, same))):
+                raise MirUnsupported("the code asks chrono-tz about a wall-clock time other than the one it was given")
+            for st2 in ex.branch(st, z3.And(okt, same)):
+                yield st2, En("LocalResult", kind.e, {"Single": (Opaque("DateTime", t1 * 10 ** 9 + nn, date.info),),
+                                                      "Ambiguous": (Opaque("DateTime", t1 * 10 ** 9 + nn, date.info), Opaque("DateTime", t2 * 10 ** 9 + nn, date.info)), "None": ()})
+
+        def m_parse_tz(ex, st, callee, a, dest_ty):
+            yield st, En("Result", z3.If(known, z3.IntVal(0), z3.IntVal(1)), {"Ok": (Opaque("Tz", zid.e),), "Err": (Opaque("Error"),)})
+
+        def val(st, a):
+            return deref(ex, st, a) if isinstance(a, Ref) else a
+
+        def m_with_tz(ex, st, callee, a, dest_ty):
+            yield st, Opaque("DateTime", val(st, a[0]).e, val(st, a[1]))
+
+        def m_sub(ex, st, callee, a, dest_ty):
+            yield st, Opaque("TimeDelta", z3.simplify(val(st, a[0]).e - val(st, a[1]).e))
+
+        def m_num_seconds(ex, st, callee, a, dest_ty):
+            from mir.sym import tdiv
+            yield st, Sc(tdiv(val(st, a[0]).e, z3.IntVal(10 ** 9)), "i64")
+
+        def m_offset(ex, st, callee, a, dest_ty):
+            dt = val(st, a[0])
+            yield st, Opaque("TzOffset", rule(dt.e / 10 ** 9) if dt.info != "utc" else z3.IntVal(0))
+
+        def m_fix(ex, st, callee, a, dest_ty):
+            yield st, Opaque("FixedOffset", val(st, a[0]).e)
+
+        def m_lmu(ex, st, callee, a, dest_ty):
+            yield st, Sc(val(st, a[0]).e, "i32")
+        models = [(re.compile(r"^<(Utc|Tz|chrono_tz::Tz) as TimeZone>::ymd_opt$"), m_ymd),
+                  (re.compile(r"^LocalResult::<Date<.*>>::and_hms_nano_opt$"), m_hms),
+                  (re.compile(r"^core::str::<impl str>::parse::<(chrono_tz::)?Tz>$|^<(chrono_tz::)?Tz as FromStr>::from_str$"), m_parse_tz),
+                  (re.compile(r"^DateTime::<.*>::with_timezone::<.*>$"), m_with_tz),
+                  (re.compile(r"^<DateTime<.*> as Sub(<.*>)?>::sub$|^DateTime::<.*>::signed_duration_since::<.*>$"), m_sub),
+                  (re.compile(r"^(chrono::)?(TimeDelta|Duration)::num_seconds$"), m_num_seconds),
+                  (re.compile(r"^DateTime::<.*>::offset$"), m_offset),
+                  (re.compile(r"^<.* as Offset>::fix$"), m_fix),
+                  (re.compile(r"^FixedOffset::local_minus_utc$"), m_lmu)]
+
+        def runner(ex, st):
+            ex.models[:0] = models
+            yield from ex.run("get_zone_offset", [StrV(None, id=zid.e), Adt("tuple", None, (y, mo, d)), Adt("tuple", None, (h, mi, s_, n))], st)
+        return runner, None, inputs
+
+    def post(ex, o_, v):
+        r = o_.value
+        defined = z3.And(v["zone_known"], v["local_result"] <= 1)
+        res = [("the offset is defined exactly for a known zone and a wall-clock time that exists there", (r.disc == 1) == defined)]
+        if "Some" in r.alts:
+            res.append(("it is the zone's offset at the instant the wall-clock time denotes (the earlier one when it occurs twice)", z3.Implies(r.disc == 1, r.alts["Some"][0].e == v["_W"] - v["_t1"])))
+        return res
+
+    def prefer(v):
+        t0, ts, te = S_2021
+        c = [v["year"] == 2021, v["zoneid"] == WARSAW, v["zone_known"], v["nano"] == 0]
+        for t, val_ in v["_apps"]:
+            c.append(z3.Implies(z3.And(t >= t0, t < t0 + 365 * 86400), val_ == z3.If(z3.And(t >= ts, t < te), 7200, 3600)))
+        W = v["_W"]
+        gap = z3.And(W >= ts + 3600, W < ts + 7200)
+        fold = z3.And(W >= te + 3600, W < te + 7200)
+        c.append(v["local_result"] == z3.If(gap, 2, z3.If(fold, 1, 0)))
+        c.append(z3.Implies(fold, z3.And(v["_t1"] == W - 7200, v["_t2"] == W - 3600)))
+        return z3.And(c)
+
+    def desc(m, v):
+        return {k: (bool(model_value(m, x)) if k == "zone_known" else model_value(m, x)) for k, x in v.items() if not k.startswith("_")}
+
+    def replay(i, rb):
+        if not (i["zone_known"] and i["zoneid"] == WARSAW and i["year"] == 2021):
+            return False, "witness needs a zone the replay does not know"
+        lit_ = 'date and time("2021-%02d-%02dT%02d:%02d:%02d@Europe/Warsaw")' % (i["month"], i["day"], i["hour"], i["minute"], i["second"])
+        _, out, _ = replay_call(rb, ["feel", "string(%s.time offset)" % lit_])
+        import datetime
+        W = (datetime.date(2021, i["month"], i["day"]).toordinal() - datetime.date(1970, 1, 1).toordinal()) * 86400 + i["hour"] * 3600 + i["minute"] * 60 + i["second"]
+        t0, ts, te = S_2021
+        if ts + 3600 <= W < ts + 7200:
+            want = None
+        else:
+            want = 7200 if ts + 7200 <= W < te + 7200 else 3600
+        txt = out[6:].strip().strip('"') if out.startswith("VALUE ") else out
+        got = dt_duration_ns(txt) if out.startswith('VALUE "') else None
+        bad = (got is None) != (want is None) or (want is not None and got != want * 10 ** 9)
+        return bad, "%s.time offset -> %s; Europe/Warsaw is %s then" % (lit_, txt[:40], "%d s east of UTC" % want if want is not None else "skipping that hour")
+    return lambda c: decide(c, crate, "zone_offset/get_zone_offset", setup, post, replay, rb, describe=desc, prefer=prefer, budget_s=300, min_paths=2, max_cex=3)
